@@ -256,5 +256,5 @@ Proof.
             [AddColumn "t" (mkCol "status" (TEnum "status" (EVString ["active"; "done"])) false None None None None None None)
                        (Some "bogus")]).
   exists [mkTable "t" None [mkCol "id" (TSimple Integer) false None None (Some (PKBool true)) None None None] []].
-  eexists. split; vm_compute; reflexivity.
+  eexists. split; [vm_compute; reflexivity|]. vm_compute. reflexivity.
 Qed.
